@@ -1,4 +1,5 @@
 import SkgVerif.Lemmas.KrigeAlgebra
+import SkgVerif.Props.Transcribed.C08
 /-!
 # C08 — ordinary kriging is an exact and unbiased interpolator
 
